@@ -113,6 +113,13 @@ def gen(rng, tier):
         cv = [_cds([pts[v + sv * u] for v in range(sv)], cen) for u in range(su)]
         line = "fit.asurf %d %d %d %d %s %s %s %d %d" % (pu, pv, su, sv, show_pts(pts), show_pts(cu), show_pts(cv), ncu, ncv)
         out.append(Case('asurf', line, dict(pu=pu, pv=pv, su=su, sv=sv, pts=pts, cen=cen, ncu=ncu, ncv=ncv, dflt=dflt)))
+    # the smallest admissible number of control points for a line (degree 1, two control points: nothing to
+    # solve, the result is the segment between the end data points) - recorded finding F-11a
+    for _ in range(3 if tier == 'quick' else 20):
+        dim = rng.choice([2, 3]); npts = rng.randint(3, 7)
+        pts = _data(rng, npts, dim); cen = rng.random() < .5
+        cds = _cds(pts, cen)
+        out.append(Case('acurve', "fit.acurve 1 %s %s 2" % (show_pts(pts), show_list(cds)), dict(p=1, pts=pts, cen=cen, nc=2), tags=('two-ctrlpts',)))
     return out
 
 
@@ -222,5 +229,22 @@ def oracle(c):
                         acc = [a + Ni * (qk - x) for a, qk, x in zip(acc, Q[k], ck)]
                 if any(a != 0 for a in acc):
                     return "approximate_surface: boundary polygon %s is not the least-squares fit of the boundary data line (residual not orthogonal to basis function %d)" % (name, i)
+        return None
+    return None
+
+
+def classify(c, why):
+    if c.kind == 'acurve' and c.data.get('nc') == 2 and 'raised IndexError' in why:
+        return 'F-11a'
+    return None
+
+
+def witness(fid):
+    if fid == 'F-11a':
+        from geomdl import fitting
+        try:
+            fitting.approximate_curve(qpts([[F(0), F(0)], [F(1), F(2)], [F(2), F(1)], [F(3), F(3)]]), 1, ctrlpts_size=2)
+        except IndexError:
+            return "approximate_curve(4 points, degree 1, ctrlpts_size=2) raises IndexError"
         return None
     return None
